@@ -141,7 +141,8 @@ def get_spectra(time_series, method=None):
         mdict = method.copy()
         func = eval(mdict.pop('this_method'))
         freqs, fxy = func(time_series, **mdict)
-        f = utils.circle_to_hz(freqs, mdict.get('Fs', 2 * np.pi))
+        # the estimators already return their grid in the units of Fs
+        f = freqs
 
     else:
         raise ValueError("Unknown method provided")
